@@ -180,7 +180,11 @@ _CLUSTER_RULE = ("stream cluster: the real KafkaCluster.getOffsets (hook) agains
                  "Every third case runs the module's REAL mainLoop (hook ff01871: the three tickers are channels the harness owns; real Stop at the end): offset ticks, metadata ticks "
                  "(also two in a row) and groups-reaper ticks in any order; a stand-in for storage takes every request off the storage channel and answers the reaper's StorageFetchConsumers "
                  "with a scripted listing (or a nil reply); ListConsumerGroups answers a scripted set or fails; compared per tick: the cycle's output as above, and for a reaper tick whether "
-                 "storage was asked and the delete-group requests in order (groups g0-g3, G0, the cluster's own burrow-c0 and another cluster's burrow-c1).")
+                 "storage was asked and the delete-group requests in order (groups g0-g3, G0, the cluster's own burrow-c0 and another cluster's burrow-c1). "
+                 "Every sixth case runs the refresh cycle against a REAL sarama.Client connected to three of sarama's own mock brokers (TCP on localhost), through Burrow's real shim "
+                 "(helpers.BurrowSaramaClient), as in production: metadata answers built by hand (leaderless = leader -1 + LEADER_NOT_AVAILABLE), offset answers with per-partition error codes, "
+                 "brokers that come back on a new address under the same id; every cycle starts with a metadata refresh (the real client answers leader lookups from what it read last); "
+                 "asked blocks and full metadata requests are read from the mock brokers' request histories.")
 PROPS["C11"] = {
     "lean_modules": ["BurrowVerif.Props.C11"],
     "props_files": ["BurrowVerif/Props/C11.lean"],
